@@ -111,7 +111,9 @@ class _Obs:
                 p = cls._p(args[0])
                 cls.active = False
                 try:
-                    ex = os.path.lexists(p)   # mkdir on an existing path fails with EEXIST: no effect
+                    # mkdir on an existing path (EEXIST) or below something that is not an existing directory
+                    # (ENOTDIR / ENOENT) fails without any effect
+                    ex = os.path.lexists(p) or not os.path.isdir(os.path.dirname(os.path.abspath(p)))
                 finally:
                     cls.active = True
                 ev = ["mkdirExisting" if ex else "mkdir", p]
@@ -920,6 +922,14 @@ CORPUS = [
         {"name": "e.txt", "kind": "empty", "data": ""}, {"name": "e.txt/x.txt", "kind": "empty", "data": ""}, {"name": "o.txt", "kind": "orphan", "data": ""}]},
     {"fmt": "tar", "consumer": ["exhaust"], "max_memory": SMALL_MAX, "members": [
         {"name": "BZnotes.txt", "kind": "file", "data": "first member name starts like bzip2"}, {"name": "b.txt", "kind": "file", "data": "second"}]},
+    # members=[…]: skipped members are stepped over, not written; their names cannot abort the archive
+    {"fmt": "7z", "layout": "solid", "consumer": ["exhaust"], "max_memory": SMALL_MAX, "members": [
+        {"name": "../../skipped.bin", "kind": "file", "data": "unsupported, escaping name"}, {"name": "big.txt", "kind": "file", "data": "o" * (SMALL_MAX + 1)},
+        {"name": "d/kept.txt", "kind": "file", "data": "kept member after two skipped ones"}, {"name": "{SB}/x.exe", "kind": "file", "data": "skipped absolute"},
+        {"name": "../../skipped-empty.dat", "kind": "empty", "data": ""}, {"name": "tail.bin", "kind": "file", "data": "never decoded tail"}]},
+    {"fmt": "7z", "layout": "perfile", "consumer": ["close", 1], "max_memory": SMALL_MAX, "members": [
+        {"name": "only-skipped.bin", "kind": "file", "data": "folder with nothing wanted"}, {"name": "../evil.txt", "kind": "file", "data": "wanted but escaping: aborts"},
+        {"name": "a.txt", "kind": "file", "data": "third folder"}]},
 ] + [w for _, w in WITNESSES]
 
 
